@@ -12,11 +12,16 @@ pub fn get() -> FunctionDefinitions {
         struct Impl(Vec<Rc<dyn Get>>);
         impl Get for Impl {
             fn get(&self, value: &Context) -> Option<JsonValue> {
-                let sepetator = self
-                    .0
-                    .apply(value, 1)
-                    .and_then(|f| TryInto::<String>::try_into(f).ok())
-                    .unwrap_or(", ".into());
+                let sepetator: String = if self.0.len() > 1 {
+                    match self.0.apply(value, 1) {
+                        Some(JsonValue::String(str)) => str,
+                        _ => {
+                            return None;
+                        }
+                    }
+                } else {
+                    ", ".into()
+                };
                 match self.0.apply(value, 0) {
                     Some(JsonValue::Array(list)) => {
                         let mut str = String::new();
